@@ -277,13 +277,22 @@ def multistep_neutral(M, rec, rng, g, n_runs, steps=12):
         rec.count("multistep_runs")
         rec.seen("relations", ("R1-infinite-limit-multistep", "numpy"))
         rec.seen("multistep_alpha_zero", any(l["alpha"] == 0.0 for l in desc["links"]))
+        # (a third of the runs: single-precision state arrays, as a learning pipeline or float32 data files hand them over)
+        single = rng.random() < 0.34
+        if single:
+            rec.count("multistep_runs_with_single_precision_states")
+
+        def f32(ic):
+            return {el_: {nm_: (x_.astype(np.float32) if isinstance(x_, np.ndarray) and x_.dtype == np.float64 and nm_ != "v_ctrl" else x_) for nm_, x_ in d_.items()}
+                    for el_, d_ in ic.items()} if single else ic
+
         for k in range(steps):
             icc = drive.np_init(bc, vc, "vec1")
             for lid, arr in limits.items():
                 icc[bc.links[lid]]["v_ctrl"] = arr
             try:
-                bc.net.step(init_conditions=icc, engine=NE(), positive_next_speed=True, **kw)
-                bp.net.step(init_conditions=drive.np_init(bp, vp, "vec1"), engine=NE(), positive_next_speed=True, **kw)
+                bc.net.step(init_conditions=f32(icc), engine=NE(), positive_next_speed=True, **kw)
+                bp.net.step(init_conditions=f32(drive.np_init(bp, vp, "vec1")), engine=NE(), positive_next_speed=True, **kw)
             except Exception as e:
                 rec.violation(f"{PROP}:R1-multistep:numpy: stepping raised {type(e).__name__}", {"desc": desc, "exception": repr(e)[:300]})
                 break
@@ -413,7 +422,7 @@ def dec_cveq(kind, args, kwargs, res, rec):
     a.update(kwargs)
     rho = primmon.flat(a["rho"])
     vc = primmon.flat(a["v_ctrl"]) if a["v_ctrl"] is not None else []
-    vsl = list(a["vsl"])
+    vsl = [int(j_) % len(rho) for j_ in a["vsl"]] if len(rho) else list(a["vsl"])  # positions may be counted from the end
     if len(vc) == 1 and len(vsl) > 1:
         vc = vc * len(vsl)  # one value shown on every sign
     try:
@@ -432,7 +441,9 @@ def dec_cveq(kind, args, kwargs, res, rec):
         else:
             exp = V
             what = "unlisted segment's equilibrium speed changed"
-        if not (abs(out[i] - exp) <= 1e-10 * (1 + abs(exp))):
+        # (single-precision states: the primitive computes in single precision, this postcondition in double)
+        tol_ = 1e-5 if getattr(a["rho"], "dtype", None) == np.float32 or getattr(res, "dtype", None) == np.float32 else 1e-10
+        if not (abs(out[i] - exp) <= tol_ * (1 + abs(exp))):
             rec.violation(f"{PROP}:controlled_Veq:{kind}: {what}",
                           {"engine": kind, "rho": rho, "v_ctrl": vc, "vsl": vsl, "alpha": al, "index": i,
                            "observed": out[i], "expected": exp})
